@@ -166,7 +166,9 @@ pub fn gluon(e: &E, style: u32) -> String {
         E::App(f, a) => format!("({} {})", gluon(f, style), gluon(a, style)),
         E::Lt(a, b) => format!("({} #Int< {})", gluon(a, style), gluon(b, style)),
         E::Let(x, e1, e2) => {
-            if style & 1 == 1 {
+            // `let f x = …` binds `f` recursively in gluon (`let f x = f x in f` is accepted), so
+            // the function style is only the same program when `f` is not free in the body
+            if style & 1 == 1 && !free_in(x, e1) {
                 if let E::Lam(..) = **e1 {
                     let mut args = vec![];
                     let mut b: &E = e1;
@@ -210,6 +212,20 @@ pub fn gluon(e: &E, style: u32) -> String {
             E::Var(_) | E::Rec(_) | E::Tup(_) | E::Proj(..) => format!("{}.{}", gluon(e, style), l),
             _ => format!("({}).{}", gluon(e, style), l),
         },
+    }
+}
+
+pub fn free_in(x: &str, e: &E) -> bool {
+    match e {
+        E::Var(y) => x == y,
+        E::Int(_) | E::Str(_) | E::Con(_) => false,
+        E::Lam(y, b) => y != x && free_in(x, b),
+        E::App(a, b) | E::Lt(a, b) => free_in(x, a) || free_in(x, b),
+        E::Let(y, a, b) => free_in(x, a) || (y != x && free_in(x, b)),
+        E::If(a, b, c) => free_in(x, a) || free_in(x, b) || free_in(x, c),
+        E::Rec(fs) => fs.iter().any(|f| free_in(x, &f.1)),
+        E::Tup(es) | E::Arr(es) => es.iter().any(|e| free_in(x, e)),
+        E::Proj(e, _) => free_in(x, e),
     }
 }
 
@@ -450,6 +466,8 @@ fn unused_pool() -> Vec<E> {
 pub struct Real {
     vm: gluon::RootedThread,
     n: u64,
+    /// message of the last rejection (used only to name the fingerprint, never compared)
+    last_err: String,
 }
 
 #[derive(Clone, Debug, PartialEq)]
@@ -465,7 +483,7 @@ pub enum Verdict {
 
 impl Real {
     pub fn new() -> Real {
-        Real { vm: gv::vm::new_vm_no_prelude(), n: 0 }
+        Real { vm: gv::vm::new_vm_no_prelude(), n: 0, last_err: String::new() }
     }
     pub fn check(&mut self, src: &str) -> Verdict {
         self.n += 1;
@@ -486,6 +504,7 @@ impl Real {
             }
             Ok(Err(e)) => {
                 let msg = format!("{}", e);
+                self.last_err = msg.clone();
                 if msg.contains("Unexpected token") || msg.contains("Unexpected end") || msg.contains("Invalid token") {
                     Verdict::ParseError(msg)
                 } else {
@@ -528,13 +547,64 @@ fn feature_tag(e: &E) -> &'static str {
     }
 }
 
-/// One generated program: correspondence line + all oracles.
-fn one(out: &mut Out, real: &mut Real, e: &E, style: u32, rng: &mut gv::rng::Rng, replaying: bool) {
-    let src = program(e, style);
-    if std::env::var("C03_TRACE").is_ok() {
-        eprintln!("{}", src);
+/// Everything one case produces (travels from the child process to the parent as one JSON line).
+#[derive(Default)]
+pub struct CaseRec {
+    idx: u64,
+    counts: Vec<String>,
+    oracle: Vec<serde_json::Value>,
+    class: Option<String>,
+    sample: Option<serde_json::Value>,
+    request: String,
+    payload: String,
+}
+
+impl CaseRec {
+    fn count(&mut self, k: &str) {
+        self.counts.push(k.to_string());
     }
+    fn oracle_fail(&mut self, fp: &str, what: &str, replay: serde_json::Value) {
+        self.oracle.push(serde_json::json!({"fingerprint": fp, "what": what, "replay": replay}));
+    }
+    fn class(&mut self, c: String) {
+        self.class = Some(c);
+    }
+    fn sample(&mut self, v: serde_json::Value) {
+        self.sample = Some(v);
+    }
+    fn case(&mut self, req: &str, payload: &str) {
+        self.request = req.to_string();
+        self.payload = payload.to_string();
+    }
+    fn to_json(&self) -> serde_json::Value {
+        serde_json::json!({"idx": self.idx, "counts": self.counts, "oracle": self.oracle, "class": self.class,
+            "sample": self.sample, "request": self.request, "payload": self.payload})
+    }
+    fn emit(j: &serde_json::Value, out: &mut Out) {
+        for c in j["counts"].as_array().unwrap() {
+            out.count(c.as_str().unwrap());
+        }
+        for o in j["oracle"].as_array().unwrap() {
+            out.oracle_fail(o["fingerprint"].as_str().unwrap(), o["what"].as_str().unwrap(), o["replay"].clone());
+        }
+        if let Some(c) = j["class"].as_str() {
+            out.class(c.to_string());
+        }
+        if !j["sample"].is_null() {
+            out.sample(j["sample"].clone());
+        }
+        if !j["request"].as_str().unwrap().is_empty() {
+            out.case(j["request"].as_str().unwrap(), j["payload"].as_str().unwrap());
+        }
+    }
+}
+
+/// One generated program: correspondence line + all oracles.
+fn one(out: &mut CaseRec, real: &mut Real, e: &E, style: u32, rng: &mut gv::rng::Rng, replaying: bool) {
+    let src = program(e, style);
     let v = real.check(&src);
+    let first_err = real.last_err.clone();
+    let mut known_poly_field = false;
     let w = refw::infer_program(e);
     let tag = feature_tag(e);
     let replay = serde_json::json!({"program": src, "ast": sexp(e), "style": style});
@@ -552,7 +622,15 @@ fn one(out: &mut Out, real: &mut Real, e: &E, style: u32, rng: &mut gv::rng::Rng
         (Some(pt), Verdict::Err) => {
             // With the row-tail defect a *principal* typing can also be lost only through the
             // row path; keep the fingerprint apart.
-            let fp = if w.row_rewrite { "incomplete:rows-path".to_string() } else { format!("incomplete:{}", tag) };
+            let fp = if first_err.contains("Expected: forall") || first_err.contains("Found: forall") {
+                // a record field was generalised to `forall a . …` and then met a monomorphic type
+                known_poly_field = true;
+                "incomplete:poly-record-field".to_string()
+            } else if w.row_rewrite {
+                "incomplete:rows-path".to_string()
+            } else {
+                format!("incomplete:{}", tag)
+            };
             out.oracle_fail(
                 &fp,
                 &format!("typable program rejected; principal type {}", refw::gluon_type(&refw::canon(pt))),
@@ -565,7 +643,10 @@ fn one(out: &mut Out, real: &mut Real, e: &E, style: u32, rng: &mut gv::rng::Rng
             if a != b {
                 let more_general = refw::instance_of(&a, &b); // a = θ b : real is more general than principal
                 let less_general = refw::instance_of(&b, &a);
-                let fp = if w.row_rewrite && more_general {
+                let fp = if refw::mentions(rt, "HigherRank") {
+                    known_poly_field = true;
+                    "higher-rank:poly-record-field".to_string()
+                } else if w.row_rewrite && more_general {
                     "unlinked-row-tail:unify_rows".to_string()
                 } else if less_general {
                     format!("non-principal:{}", tag)
@@ -628,7 +709,9 @@ fn one(out: &mut Out, real: &mut Real, e: &E, style: u32, rng: &mut gv::rng::Rng
         }
         // (c) self annotation of the whole program, and of a top-level let binding
         if let Verdict::Ok(t) = &v {
-            if refw::mentions(t, "Bool") {
+            if refw::mentions(t, "HigherRank") {
+                out.count("skipped:annot-higher-rank");
+            } else if refw::mentions(t, "Bool") {
                 out.count("skipped:annot-bool-unwritable");
             } else {
                 let pre = if e.uses_con() { PREFIX } else { "" };
@@ -645,7 +728,7 @@ fn one(out: &mut Out, real: &mut Real, e: &E, style: u32, rng: &mut gv::rng::Rng
                 if let E::Let(x, e1, e2) = e {
                     let pre1 = if e1.uses_con() { PREFIX } else { "" };
                     if let Verdict::Ok(t1) = real.check(&format!("{}{}", pre1, gluon(e1, style))) {
-                        if !refw::mentions(&t1, "Bool") {
+                        if !refw::mentions(&t1, "Bool") && !refw::mentions(&t1, "HigherRank") {
                             let s3 = format!(
                                 "{}(let {} : {} = {} in {})",
                                 pre,
@@ -698,12 +781,19 @@ fn one(out: &mut Out, real: &mut Real, e: &E, style: u32, rng: &mut gv::rng::Rng
     if f.len() >= 2 {
         out.class(format!("{}|{}", e.shape(), outcome));
     }
-    if out.n_cases % 397 == 3 {
+    if out.idx % 397 == 3 {
         out.sample(serde_json::json!({"program": src, "impl": short(&v)}));
     }
     if replaying {
         println!("program: {}\nreal:    {}\nref W:   {}", src, short(&v),
             w.result.as_ref().map(|t| refw::gluon_type(&refw::canon(t))).unwrap_or("untypable".into()));
+    }
+    if known_poly_field && !replaying {
+        // gluon generalises record fields to first-class polymorphic types (typecheck.rs:989-);
+        // the model is plain HM and does not reproduce the resulting known finding: these cases
+        // are reported by the oracle and left out of the model/implementation comparison
+        out.count("skipped:known-poly-record-field-case");
+        return;
     }
     out.case(&format!("infer {}", sexp(e)), &payload(&v));
 }
@@ -799,31 +889,67 @@ fn corpus() -> Vec<E> {
             E::App(v("f"), Box::new(E::Rec(vec![("x".into(), E::Str("a".into())), ("y".into(), E::Int(2))])))])),
         lam("x", E::App(v("x"), v("x"))),
         let_("p", E::Arr(vec![]), E::Tup(vec![*v("p"), *v("p")])),
+        // known finding: record fields are generalised to first-class polymorphic types
+        E::Arr(vec![E::Rec(vec![("x".into(), E::Arr(vec![]))]), E::Rec(vec![("x".into(), E::Arr(vec![]))])]),
+        lam("x", E::Arr(vec![*v("x"), E::Rec(vec![("x".into(), E::Arr(vec![]))])])),
+        lam("x", E::Arr(vec![*v("x"), E::Rec(vec![("x".into(), lam("y", *v("y")))])])),
+        // untypable (infinite type through a row): the real checker overflows its stack
+        lam("x", E::Arr(vec![proj(v("x"), "x"), *v("x")])),
     ]
 }
 
 fn main() {
+    // deep recursion in the checker on nested programs: run with a large stack
+    let h = std::thread::Builder::new().stack_size(1 << 29).spawn(main2).unwrap();
+    h.join().unwrap();
+}
+
+fn main2() {
     gv::quiet_panics();
     let args = Args::parse();
-    let mut out = Out::new(&args.out);
-    let mut real = Real::new();
-    let mut rng = gv::rng::Rng::new(args.seed, 3);
+    if args.extra.iter().any(|a| a == "--probe") {
+        use std::io::BufRead;
+        let mut real = Real::new();
+        for line in std::io::stdin().lock().lines() {
+            let line = line.unwrap();
+            let vm = &real.vm;
+            real.n += 1;
+            let r = gv::catch(|| vm.typecheck_str(&format!("p{}", real.n), &line, None));
+            match r {
+                Ok(Ok((_, t))) => println!("{}\n   OK {}", line, t),
+                Ok(Err(e)) => println!("{}\n   ERR {}", line, format!("{}", e).replace('\n', " | ")),
+                Err(p) => println!("{}\n   PANIC {}", line, p),
+            }
+        }
+        return;
+    }
     if let Some(rp) = &args.replay {
+        let mut out = Out::new(&args.out);
         let j: serde_json::Value = serde_json::from_str(&std::fs::read_to_string(rp).unwrap()).unwrap();
         let case = &j["case"];
         let ast = case["ast"].as_str().unwrap_or("");
         let style = case["style"].as_u64().unwrap_or(0) as u32;
         match typarse::parse_expr(ast) {
-            Some(e) => one(&mut out, &mut real, &e, style, &mut rng, true),
+            Some(e) => {
+                let mut rec = CaseRec::default();
+                let mut rng = gv::rng::Rng::new(args.seed, 1000);
+                one(&mut rec, &mut Real::new(), &e, style, &mut rng, true);
+                for o in &rec.oracle {
+                    println!("oracle: {} — {}", o["fingerprint"], o["what"]);
+                }
+                CaseRec::emit(&rec.to_json(), &mut out);
+            }
             None => println!("cannot parse replay ast: {}", ast),
         }
         out.finish();
         return;
     }
+    // The whole case stream is a pure function of (tier, seed): the parent and every child
+    // build the same list; a child processes an index range.
+    let mut cases: Vec<(E, u32)> = vec![];
     for e in corpus() {
-        one(&mut out, &mut real, &e, 0, &mut rng, false);
+        cases.push((e, 0));
     }
-    // exhaustive small terms
     let max = if args.thorough() { 5 } else { 4 };
     let mut n_exh = 0u64;
     for size in 1..=max {
@@ -831,23 +957,108 @@ fn main() {
         enumerate(size, &mut vec![], &mut v);
         for e in v {
             n_exh += 1;
-            one(&mut out, &mut real, &e, (n_exh % 4) as u32, &mut rng, false);
+            cases.push((e, (n_exh % 4) as u32));
         }
     }
-    out.stats.insert("exhaustive_up_to_size".into(), (max as u64).into());
-    out.stats.insert("exhaustive_terms".into(), n_exh.into());
-    // random
-    let n_rand = if args.thorough() { 12000 } else { 700 };
+    let n_rand = if args.thorough() { 15000 } else { 4000 };
     let mut g = Gen { rng: gv::rng::Rng::new(args.seed, 33) };
+    let mut too_large = 0u64;
     for _ in 0..n_rand {
         let depth = g.rng.range(2, 5) as u32;
         let e = g.gen(depth, &mut vec![]);
+        let style = g.rng.below(4) as u32;
         if e.size() > 40 {
-            out.count("skipped:too-large");
+            too_large += 1;
             continue;
         }
-        let style = g.rng.below(4) as u32;
-        one(&mut out, &mut real, &e, style, &mut rng, false);
+        cases.push((e, style));
+    }
+    if let Some(p) = args.extra.iter().position(|a| a == "--child") {
+        // child: process cases[lo..hi), one JSON line per case, `START i` before each
+        let lo: usize = args.extra[p + 1].parse().unwrap();
+        let hi: usize = args.extra[p + 2].parse().unwrap();
+        let mut real = Real::new();
+        use std::io::Write;
+        let so = std::io::stdout();
+        for i in lo..hi.min(cases.len()) {
+            {
+                let mut l = so.lock();
+                writeln!(l, "START {}", i).unwrap();
+                l.flush().unwrap();
+            }
+            let mut rec = CaseRec::default();
+            rec.idx = i as u64;
+            let mut rng = gv::rng::Rng::new(args.seed, 1000 + i as u64);
+            one(&mut rec, &mut real, &cases[i].0, cases[i].1, &mut rng, false);
+            let mut l = so.lock();
+            writeln!(l, "CASE {}", rec.to_json()).unwrap();
+            l.flush().unwrap();
+        }
+        return;
+    }
+    let mut out = Out::new(&args.out);
+    out.stats.insert("exhaustive_up_to_size".into(), (max as u64).into());
+    out.stats.insert("exhaustive_terms".into(), n_exh.into());
+    out.add("skipped:too-large", too_large);
+    let seed_s = args.seed.to_string();
+    let mut lo = 0usize;
+    let batch = 500usize;
+    while lo < cases.len() {
+        let hi = (lo + batch).min(cases.len());
+        let (los, his) = (lo.to_string(), hi.to_string());
+        let ex = gv::child::run(
+            &["--tier", &args.tier, "--seed", &seed_s, "--out", args.out.to_str().unwrap(), "--child", &los, &his],
+            b"",
+            std::time::Duration::from_secs(600),
+        );
+        let (text, clean) = match &ex {
+            gv::child::Exit::Ok(s) => (s.clone(), true),
+            gv::child::Exit::Code(_, s, _) | gv::child::Exit::Signal(_, s, _) | gv::child::Exit::Timeout(s) => (s.clone(), false),
+        };
+        let mut started: Option<usize> = None;
+        let mut done = lo;
+        for line in text.lines() {
+            if let Some(r) = line.strip_prefix("START ") {
+                started = r.trim().parse().ok();
+            } else if let Some(r) = line.strip_prefix("CASE ") {
+                if let Ok(j) = serde_json::from_str::<serde_json::Value>(r) {
+                    CaseRec::emit(&j, &mut out);
+                    done = j["idx"].as_u64().unwrap() as usize + 1;
+                    started = None;
+                }
+            }
+        }
+        if clean {
+            lo = hi;
+        } else {
+            // the checker took the process down (stack overflow / abort / hang) on case `started`
+            let k = started.unwrap_or(done);
+            let (e, style) = &cases[k.min(cases.len() - 1)];
+            let src = program(e, *style);
+            let w = refw::infer_program(e);
+            out.count(&format!("checker-crash:{}", ex.class()));
+            if out.samples.len() < 8 {
+                out.sample(serde_json::json!({"program": src, "impl": format!("process {}", ex.class())}));
+            }
+            if w.result.is_some() {
+                // a typable program must be accepted
+                out.oracle_fail(
+                    &format!("crash:typecheck:{}", feature_tag(e)),
+                    &format!("the type checker brought the process down ({}) on a typable program", ex.class()),
+                    serde_json::json!({"program": src, "ast": sexp(e), "style": style}),
+                );
+            } else {
+                // untypable program: not a statement of this property; recorded in the evidence
+                let mut f = std::fs::OpenOptions::new()
+                    .create(true)
+                    .append(true)
+                    .open(args.out.join("crashes.txt"))
+                    .unwrap();
+                use std::io::Write;
+                writeln!(f, "{}\t{}", ex.class(), src).unwrap();
+            }
+            lo = k + 1;
+        }
     }
     out.finish();
 }
